@@ -80,22 +80,29 @@ fn any_chunks<const K: usize>() -> ([u64; K], [usize; K], Vec<ChunkOffset>) {
 // Range request, bounds = first byte of the first .. last byte of the last
 // chunk of the maximal adjacent run; the run counter is the run length.
 // ---------------------------------------------------------------------------
-#[kani::proof]
-#[kani::unwind(6)]
-fn c07_new_request_step() {
-    const K: usize = 4;
-    let (o, s, chunks) = any_chunks::<K>();
-    let idx: usize = kani::any();
-    kani::assume(idx < K);
+/// Sizes and position are concrete per instance (so that "is the next chunk already buffered?" is decided
+/// statically and the serve branch -- split_to/freeze -- stays out of the formula; it has its own harness);
+/// offsets -- i.e. which chunks are adjacent, in which order they are stored, where the gaps are -- are symbolic.
+fn new_request_step(sz: [usize; 3], idx: usize, stale: usize) {
+    const K: usize = 3;
+    let o8: [u8; K] = kani::any();
+    kani::assume(o8[0] < 40 && o8[1] < 40 && o8[2] < 40);
+    let o = [o8[0] as u64, o8[1] as u64, o8[2] as u64];
+    let s = sz;
+    let mut chunks = Vec::with_capacity(K);
+    chunks.push(ChunkOffset::new(o[0], s[0]));
+    chunks.push(ChunkOffset::new(o[1], s[1]));
+    chunks.push(ChunkOffset::new(o[2], s[2]));
     let retries: u32 = kani::any();
     let delay: u64 = kani::any();
     kani::assume(delay < 100);
     let rb = builder();
-    // state between runs: no request, counter 0, arbitrary leftover in the buffer shorter than the next chunk
-    let left: usize = kani::any();
-    kani::assume(left < s[idx]);
-    let mut buf = BytesMut::with_capacity(8);
-    buf.extend_from_slice(&CONTENT[..left]);
+    // state between runs: no request, counter 0, stale leftover in the buffer shorter than the next chunk
+    assert!(stale < s[idx]);
+    let mut buf = BytesMut::new();
+    if stale > 0 {
+        buf.extend_from_slice(&CONTENT[..stale]);
+    }
     let mut cr = ChunkReader {
         request_builder: &rb,
         chunk_buf: buf,
@@ -125,12 +132,28 @@ fn c07_new_request_step() {
     assert!(off == o[idx]);
     assert!(off + size - 1 == o[lastc] + s[lastc] as u64 - 1);
     assert!(rc == retries && rd == delay);
-    kani::cover!(run == 3 && idx == 1);
-    kani::cover!(run == 1 && idx == 0 && o[1] == o[0] + s[0] as u64 + 1);
-    kani::cover!(run == 1 && idx == 3);
-    kani::cover!(left > 0);
+    kani::cover!(run == K - idx); // everything left is one run
+    kani::cover!(run == 1);
+    kani::cover!(o[1] < o[0]); // stored out of order
     std::mem::forget(cr);
 }
+macro_rules! new_request_step {
+    ($name:ident, $sz:expr, $idx:expr, $stale:expr) => {
+        #[kani::proof]
+        #[kani::unwind(5)]
+        fn $name() {
+            new_request_step($sz, $idx, $stale);
+        }
+    };
+}
+new_request_step!(c07_new_request_step_s123_i0, [1, 2, 3], 0, 0);
+new_request_step!(c07_new_request_step_s123_i1, [1, 2, 3], 1, 0);
+new_request_step!(c07_new_request_step_s123_i2, [1, 2, 3], 2, 0);
+new_request_step!(c07_new_request_step_s312_i0, [3, 1, 2], 0, 0);
+new_request_step!(c07_new_request_step_s312_i1, [3, 1, 2], 1, 0);
+new_request_step!(c07_new_request_step_s221_i1_stale, [2, 2, 1], 1, 1);
+new_request_step!(c07_new_request_step_s221_i0_stale, [2, 2, 1], 0, 1);
+new_request_step!(c07_new_request_step_s233_i2_stale, [2, 3, 3], 2, 2);
 
 // ---------------------------------------------------------------------------
 // C07-3 / C08: "serve a chunk from the buffer" step.  Invariant I: a request
